@@ -16,6 +16,8 @@ type trCtx struct {
 	env  *constEnv
 	pkg  string
 	vars map[string]string // variable -> "byte" | "int" | "bool"
+	sigs map[string]predSig
+	out  []string
 }
 
 func goType(x ast.Expr) string {
@@ -106,6 +108,13 @@ func (c *trCtx) expr(x ast.Expr, want string) (string, string) {
 		if t.Name == "true" || t.Name == "false" {
 			return t.Name, "bool"
 		}
+		if v, ok := c.env.ints[c.pkg+"."+t.Name]; ok { // a named constant of the package
+			ty := want
+			if ty != "byte" && ty != "int" {
+				ty = "int"
+			}
+			return lit(v, ty), ty
+		}
 		c.fail(x, "unknown identifier %s", t.Name)
 	case *ast.CallExpr:
 		fn := exprString(t.Fun)
@@ -122,6 +131,23 @@ func (c *trCtx) expr(x ast.Expr, want string) (string, string) {
 				return s, "int"
 			}
 			return "(Z.of_N " + s + ")", "int"
+		}
+		// a call of another function of the package that is itself in the fragment: it is
+		// translated first (once) and called
+		if id, ok := t.Fun.(*ast.Ident); ok && findFunc(c.p, "", id.Name) != nil {
+			sig := c.ensure(id.Name)
+			if len(sig.params) != len(t.Args) {
+				c.fail(x, "call of %s with %d arguments", fn, len(t.Args))
+			}
+			parts := []string{id.Name}
+			for i, a := range t.Args {
+				s, ty := c.expr(a, sig.params[i])
+				if ty != sig.params[i] {
+					c.fail(a, "argument %d of %s is %s, expected %s", i+1, fn, ty, sig.params[i])
+				}
+				parts = append(parts, s)
+			}
+			return "(" + strings.Join(parts, " ") + ")", sig.ret
 		}
 		c.fail(x, "unsupported call %s", fn)
 	case *ast.UnaryExpr:
@@ -323,13 +349,32 @@ func (c *trCtx) body(stmts []ast.Stmt, ret string, at ast.Node) string {
 	return ""
 }
 
-func (c *trCtx) function(name string) string {
+type predSig struct {
+	params []string
+	ret    string
+}
+
+// ensure translates a function of the package once (its callees first) and returns its
+// signature; the definitions are collected in c.out in dependency order.
+func (c *trCtx) ensure(name string) predSig {
+	if sig, ok := c.sigs[name]; ok {
+		if sig.ret == "" {
+			die("%s.%s is recursive", c.pkg, name)
+		}
+		return sig
+	}
+	if c.sigs == nil {
+		c.sigs = map[string]predSig{}
+	}
+	c.sigs[name] = predSig{} // in progress
+	saved := c.vars
 	fd := findFunc(c.p, "", name)
 	if fd == nil {
 		die("%s.%s not found", c.pkg, name)
 	}
 	c.vars = map[string]string{}
 	var params []string
+	var sig predSig
 	for _, f := range fd.Type.Params.List {
 		ty := goType(f.Type)
 		if ty == "" {
@@ -337,18 +382,22 @@ func (c *trCtx) function(name string) string {
 		}
 		for _, n := range f.Names {
 			c.vars[n.Name] = ty
+			sig.params = append(sig.params, ty)
 			params = append(params, fmt.Sprintf("(%s : %s)", n.Name, coqType(ty)))
 		}
 	}
 	if fd.Type.Results == nil || len(fd.Type.Results.List) != 1 {
 		c.fail(fd, "expected one result")
 	}
-	ret := goType(fd.Type.Results.List[0].Type)
-	if ret == "" {
+	sig.ret = goType(fd.Type.Results.List[0].Type)
+	if sig.ret == "" {
 		c.fail(fd, "unsupported result type")
 	}
-	body := c.body(fd.Body.List, ret, fd)
-	return fmt.Sprintf("Definition %s %s : %s :=\n  %s.\n\n", name, strings.Join(params, " "), coqType(ret), body)
+	body := c.body(fd.Body.List, sig.ret, fd)
+	c.out = append(c.out, fmt.Sprintf("Definition %s %s : %s :=\n  %s.\n\n", name, strings.Join(params, " "), coqType(sig.ret), body))
+	c.sigs[name] = sig
+	c.vars = saved
+	return sig
 }
 
 func genPreds(env *constEnv, lex *pkgInfo) string {
@@ -358,7 +407,10 @@ func genPreds(env *constEnv, lex *pkgInfo) string {
 	c := &trCtx{p: lex, env: env, pkg: "lexer"}
 	for _, n := range []string{"isWhitespace", "isLetter", "isDigit", "isBinaryDigit", "isOctalDigit", "isHexDigit",
 		"hexDigitValue", "encodeUTF8", "mustStayEscaped"} {
-		b.WriteString(c.function(n))
+		c.ensure(n)
+	}
+	for _, d := range c.out {
+		b.WriteString(d)
 	}
 	return b.String()
 }
